@@ -38,7 +38,7 @@ func c20get(idx int) (c20case, []resp.Value, []byte, []int) {
 		at := c.AuthAt
 		reqs = append(reqs[:at:at], append([]resp.Value{resp.Cmd("AUTH", "Secr3t")}, reqs[at:]...)...)
 	}
-	c.Ending = rng.Pick(r, []string{"eof", "eof", "cut", "cut", "reset", "malformed", "nonarray", "write-fail", "write-fail"})
+	c.Ending = rng.Pick(r, []string{"eof", "eof", "cut", "cut", "reset", "malformed", "nonarray", "write-fail", "write-fail", "server-close-idle", "server-close-in-handler"})
 	switch c.Ending {
 	case "nonarray":
 		at := r.Intn(len(reqs) + 1)
@@ -244,8 +244,44 @@ func c20run(idx int) run.Result {
 		script.FailWriteAt = 1 + r.Intn(3)
 		script.FailWriteKeep = r.Intn(3)
 	}
-	conn := sconn.New(script)
-	sr := double.Serve(srv, conn, serveWait)
+	var sr double.ServeResult
+	switch c.Ending {
+	case "server-close-idle":
+		// the SERVER side closes the connection (as Stop, Restart, or an application holding a *Conn from Conns()
+		// do) while its goroutine is alive and waiting for the next request
+		script.End = sconn.Hold
+		conn := sconn.New(script)
+		wait := double.Start(srv, conn, nil)
+		if conn.WaitIdle(serveWait) != nil {
+			conn.End(sconn.EOF)
+			wait(serveWait)
+			res.Inconclusive = "watchdog"
+			return res
+		}
+		if r.Bool() {
+			srv.ConnManager.Close()
+		} else {
+			for _, sc := range srv.Conns() {
+				sc.Close()
+			}
+		}
+		conn.End(sconn.EOF) // (a connection that already returned is not affected)
+		sr = wait(serveWait)
+	case "server-close-in-handler":
+		// ... or while a request is in flight: the handler of a seeded call closes the connection it serves
+		inner, at := rec.Script, 1+r.Intn(4)
+		rec.Script = func(cl *double.Call) (*redis.Message, error, bool) {
+			if cl.N == at {
+				for _, sc := range srv.Conns() {
+					sc.Close()
+				}
+			}
+			return inner(cl)
+		}
+		sr = double.Serve(srv, sconn.New(script), serveWait)
+	default:
+		sr = double.Serve(srv, sconn.New(script), serveWait)
+	}
 	spans := tr.Snapshot()
 	res.Key = gen.Hash64(stream) ^ gen.Hash64([]byte(c.Ending+c.Chunking))
 	res.Classes = []string{"ending:" + c.Ending}
@@ -301,7 +337,7 @@ func init() {
 	run.Register(&run.Prop{
 		ID: "C20", Level: "exploration",
 		Rule: func(tier string) string {
-			return "case = one pipeline as in C03/C10 (every command rotating in position 0; valid, ill-formed, surplus, unknown, composed commands, QUIT, scripted handler errors, and in every sixth case a handler that returns a nil message without an error for some calls), optionally on a password-protected server with AUTH inserted at a seeded position (requests before it are unauthorized), with a non-array request inserted, ending in: EOF at the end, EOF or reset at a seeded byte offset inside the stream, a malformed frame, or a failing reply write (the k-th write fails, optionally after a few bytes); delivered whole, per request, 1-byte or random k-way. A recording tracer.Tracer (whose contexts are the library's own common.NewSpanContextWith) is installed with SetTracer. The merged log of span, would-block and write events is checked online against the trace specification: finish refers to an open span, never twice; a child starts under an open parent and all children finish before the parent; at a would-block read only the waiting root and its parse child are open; a new root never starts while another is open; each reply write lies inside exactly one root and its response child; a finished root has one parse child, <=1 command child and <=1 response child; nothing is open when the loop returns. non-trivial = error outcome, composed command, QUIT, password, or an ending other than clean EOF"
+			return "case = one pipeline as in C03/C10 (every command rotating in position 0; valid, ill-formed, surplus, unknown, composed commands, QUIT, scripted handler errors, and in every sixth case a handler that returns a nil message without an error for some calls), optionally on a password-protected server with AUTH inserted at a seeded position (requests before it are unauthorized), with a non-array request inserted, ending in: EOF at the end, EOF or reset at a seeded byte offset inside the stream, a malformed frame, a failing reply write (the k-th write fails, optionally after a few bytes), or a close from the SERVER side while the connection's goroutine is alive (the registry's Close or Close on the *Conn from Conns(), either while the connection waits for its next request or from inside the handler of a seeded call); delivered whole, per request, 1-byte or random k-way. A recording tracer.Tracer (whose contexts are the library's own common.NewSpanContextWith) is installed with SetTracer. The merged log of span, would-block and write events is checked online against the trace specification: finish refers to an open span, never twice; a child starts under an open parent and all children finish before the parent; at a would-block read only the waiting root and its parse child are open; a new root never starts while another is open; each reply write lies inside exactly one root and its response child; a finished root has one parse child, <=1 command child and <=1 response child; nothing is open when the loop returns. non-trivial = error outcome, composed command, QUIT, password, or an ending other than clean EOF"
 		},
 		Assumptions: []string{"handlers do not panic (a panic inside a command is outside the statement's list of outcomes)"},
 		Setup: func(tier string, seed uint64) int {
